@@ -265,6 +265,8 @@ func (s *bindSys) Apply(op string) (obs, sig, msg string) {
 			la := &net.UDPAddr{IP: net.ParseIP(ip), Port: port}
 			if f[1] == "anynil" {
 				la.IP = nil
+			} else if s.next%2 == 1 {
+				la.IP = la.IP.To4() // every other bind spells its IPv4 address in the 4-byte form
 			}
 			c, err = s.n.ListenUDP("udp", la)
 		case "listenpacket":
@@ -572,7 +574,7 @@ func runC13Body(tier string, shard, shards int, rep *SeqReport, lastOp, curFam *
 
 func init() {
 	register(&Check{ID: "C13", Seq: runC13,
-		Rule: "router: BFS (depth 5/6) over attachment orders {automatic host, static .1/.2/.3/.5/.254, outside the subnet, two statics, child router automatic/static}, each static used at most once, for subnets /24, /16, /25, /30, plus 257 automatic attachments after nothing / a static .1 / .100 / .254; host: BFS (depth 4/5) over {ListenUDP, ListenPacket, DialUDP, Dial} x {own address 1, own address 2, wildcard (0.0.0.0 and a nil IP with the port kept), loopback, 127.0.0.2, foreign} x {port 5000, 5001, 0 with PRNG offset 0/1/999}, Close(i), probe datagram to (ip,port), on hosts with one and two addresses, plus 998/999/1000 bound ports followed by port-0 binds; compared with a set model of assigned addresses / open sockets",
+		Rule: "router: BFS (depth 5/6) over attachment orders {automatic host, static .1/.2/.3/.5/.254, outside the subnet, two statics, child router automatic/static}, each static used at most once, for subnets /24, /16, /25, /30, plus 257 automatic attachments after nothing / a static .1 / .100 / .254; host: BFS (depth 4/5) over {ListenUDP, ListenPacket, DialUDP, Dial} x {own address 1, own address 2, wildcard (0.0.0.0 and a nil IP with the port kept; IPv4 addresses alternately in 16-byte and 4-byte form), loopback, 127.0.0.2, foreign} x {port 5000, 5001, 0 with PRNG offset 0/1/999}, Close(i), probe datagram to (ip,port), on hosts with one and two addresses, plus 998/999/1000 bound ports followed by port-0 binds; compared with a set model of assigned addresses / open sockets",
 		Assumptions: []string{"a static address equal to one already in use is supplied at most never (left unconstrained by the property)",
 			"probe datagrams are injected at the host's NIC (routing is C01's subject)"}})
 }
